@@ -576,7 +576,22 @@ def _parse_lines(lines, path, out):  # list of ('text', str) | ('prelude', width
             out.append(('prelude', st.split()[1]))
         elif st.startswith('//@include'):
             ip = os.path.join(VERIF, 'verus', st.split()[1])
-            _parse_lines(open(ip).read().split('\n'), ip, out)
+            inc = open(ip).read().split('\n')
+            if os.path.basename(ip)[:1] == 'C':
+                # a whole check template included by another one: regions marked `//@own-begin` .. `//@own-end` stay with the
+                # template they are written in (known-finding obligations must be reported once, under one id)
+                kept, skipping = [], False
+                for l in inc:
+                    if l.strip() == '//@own-begin':
+                        skipping = True
+                    elif l.strip() == '//@own-end':
+                        skipping = False
+                    elif not skipping:
+                        kept.append(l)
+                inc = kept
+            _parse_lines(inc, ip, out)
+        elif st in ('//@own-begin', '//@own-end'):
+            pass
         elif st.startswith('//@struct'):
             f, hdr, fields = [x.strip() for x in st[len('//@struct'):].split('::')]
             out.append(('struct', (f, hdr, [x.strip() for x in fields.split(',') if x.strip()])))
